@@ -869,6 +869,7 @@ def run_references(job: dict) -> dict:
     gates = job.get("gate_steps") or []
     obs = sorted(job["observations"], key=lambda o: (o["nsteps"], o["i"]))
     outcomes: dict = {}
+    memo: dict = {}
     build: list = []
     built = 0
     stuck = None
@@ -876,7 +877,12 @@ def run_references(job: dict) -> dict:
     oi = 0
     while True:
         while oi < len(obs) and obs[oi]["nsteps"] == built:
-            outcomes[str(obs[oi]["i"])] = _ref_compile_in_grandchild(env, obs[oi])
+            # the reference is a pure function of (recipe prefix, gates, options, peer plan): observations
+            # that agree on all of them share one forked compile
+            key = json.dumps([built, obs[oi].get("gate_compile"), obs[oi]["opts"], obs[oi].get("algod")], sort_keys=True)
+            if key not in memo:
+                memo[key] = _ref_compile_in_grandchild(env, obs[oi])
+            outcomes[str(obs[oi]["i"])] = memo[key]
             oi += 1
         if built >= nmax or stuck is not None:
             break
@@ -898,4 +904,4 @@ def run_references(job: dict) -> dict:
     for o in obs[oi:]:
         # the history built more steps than a pristine process can: reported as a build mismatch
         outcomes[str(o["i"])] = ["err", "BuildStuck:" + str(stuck), ""]
-    return {"outcomes": outcomes, "build": build}
+    return {"outcomes": outcomes, "build": build, "forked_compiles": len(memo)}
